@@ -61,6 +61,10 @@ TEMPLATES = {
     "el_nlt_f": (lambda i, j: [_sb(".", "<", "1.5", True)], lambda i, j: [S(".", "<", "1.5", True)], False, False, "[.!<1.5]"),
     "el_gt_f": (lambda i, j: [_sb(".", ">", "-0.5")], lambda i, j: [S(".", ">", "-0.5")], False, False, "[.>-0.5]"),
     "el_eq_f": (lambda i, j: [_sb(".", "=", "2.5")], lambda i, j: [S(".", "=", "2.5")], False, False, "[.=2.5]"),
+    "el_eq_2": (lambda i, j: [_sb(".", "=", "2")], lambda i, j: [S(".", "=", "2")], False, False, "[.=2] (int term; 2.0 is not the same kind)"),
+    "el_eq_2f": (lambda i, j: [_sb(".", "=", "2.0")], lambda i, j: [S(".", "=", "2.0")], False, False, "[.=2.0]"),
+    "el_neq_1f": (lambda i, j: [_sb(".", "=", "1.0", True)], lambda i, j: [S(".", "=", "1.0", True)], False, False, "[.!=1.0]"),
+    "el_ew_0": (lambda i, j: [_sb(".", "$", ".0")], lambda i, j: [S(".", "$", ".0")], False, False, "[.$.0]"),
     "el_le_2": (lambda i, j: [_sb(".", "<=", "2")], lambda i, j: [S(".", "<=", "2")], False, False, "[.<=2] (integer term, float values)"),
     "at_le_f": (lambda i, j: [_sb("p", "<=", "1.5")], lambda i, j: [S("p", "<=", "1.5")], False, False, "[p<=1.5]"),
     "at_nge_f": (lambda i, j: [_sb("p", ">=", "2.5", True)], lambda i, j: [S("p", ">=", "2.5", True)], False, False, "[p!>=2.5]"),
@@ -260,7 +264,7 @@ AOH_T = ["p", "idx_p", "slice_p", "at_gt", "at_ngt", "at_eq", "at_neq", "at_le",
 HASHES = ["M3", "M0", "MM", "MNULL", "MINT", "MSTRNUM", "HOH", "SCAL"]
 HASH_T = ["p", "nope", "k1", "hslice", "hslice2", "key_sw", "key_neq", "key_gt", "at_gt", "at_ngt", "at_eq", "star",
           "star_p", "star_at", "deep", "deep_p", "self", "at_desc"]
-FLOATS = [("LFLT", t) for t in ("el_le_f", "el_ge_f", "el_nlt_f", "el_gt_f", "el_eq_f", "el_le_2", "el_gt", "el_le", "idx", "deep")] + \
+FLOATS = [("LFLT", t) for t in ("el_eq_2", "el_eq_2f", "el_neq_1f", "el_ew_0", "el_le_f", "el_ge_f", "el_nlt_f", "el_gt_f", "el_eq_f", "el_le_2", "el_gt", "el_le", "idx", "deep")] + \
          [("AOHF", t) for t in ("at_le_f", "at_nge_f", "at_gt", "at_le", "p", "p_el_gt")]
 TEXTS = [("LTXT", t) for t in ("tx_sw", "tx_ew", "tx_has", "tx_nhas", "tx_eq", "tx_lt", "tx_ge", "idx", "star")] + \
         [("MTXT", t) for t in ("tx_sw", "tx_eq", "tx_lt", "key_sw", "star", "deep")]
@@ -273,7 +277,7 @@ QUICK = [("L3", "idx"), ("ML3", "barekey"), ("ML4", "slice"), ("L3", "el_gt"), (
          ("AOHD", "at_desc"), ("AOH3", "at_gt_n"), ("AOH3", "idx_p"), ("AOHX", "star_p"), ("AOHD", "deep_p"),
          ("M3", "key_sw"), ("M3", "hslice"), ("MM", "at_gt"), ("MINT", "k1"), ("HOH", "star_at"), ("MM", "deep"),
          ("LL", "idx_idx"), ("LMIX", "p"), ("M3", "star"), ("SCAL", "el_gt"), ("AOHX", "p_el_gt"), ("MSTRNUM", "k1"),
-         ("AOH3", "slice_p"), ("LFLT", "el_le_f"), ("LFLT", "el_ge_f"), ("AOHF", "at_le_f"), ("AOHF", "at_nge_f"),
+         ("AOH3", "slice_p"), ("LFLT", "el_le_f"), ("LFLT", "el_ge_f"), ("LFLT", "el_eq_2"), ("LFLT", "el_eq_2f"), ("LFLT", "el_neq_1f"), ("AOHF", "at_le_f"), ("AOHF", "at_nge_f"),
          ("LTXT", "tx_sw"), ("LTXT", "tx_lt"), ("LTXT", "tx_nhas"), ("LMIX", "el_eq_p"), ("LHASH", "el_eq_p")]
 
 
@@ -330,11 +334,10 @@ def pairs(tier):
 def shards(tier, seed):
     out = [x for s, t in pairs(tier) for x in _mk(s, t, tier)]
     for s, t, o in (REUSE_Q if tier == "thorough" else REUSE_Q[:4]):
-        uses_i = TEMPLATES[t][2] or TEMPLATES[o][2]
         out.append(shard(PID, "reuse/%s/%s+%s" % (s, t, o), "harness.c01",
-                         "query_reuse(%r, %r, %r, %s, a, b, c, slash)" % (s, t, o, "i" if uses_i else "0"),
-                         ([("i", "int")] if uses_i else []) + [("a", "int"), ("b", "int"), ("c", "int"), ("slash", "bool")],
-                         (["-4 <= i <= 4"] if uses_i else []) + ["-9 <= a <= 9 and -9 <= b <= 9 and -9 <= c <= 9"],
+                         "query_reuse(%r, %r, %r, 1, a, b, c, slash)" % (s, t, o),
+                         [("a", "int"), ("b", "int"), ("c", "int"), ("slash", "bool")],
+                         ["-9 <= a <= 9 and -9 <= b <= 9 and -9 <= c <= 9"],
                          family="reuse", budget=900,
                          desc="one Processor + one YAMLPath object reused for 5 queries: %s then %s" % (t, o)))
     return out
